@@ -116,6 +116,8 @@ pub mod core_iterators;
 pub mod double_priority_queue;
 pub mod priority_queue;
 mod store;
+#[cfg(priority_queue_verif)]
+mod verif;
 
 pub use crate::double_priority_queue::DoublePriorityQueue;
 pub use crate::priority_queue::PriorityQueue;
